@@ -550,6 +550,24 @@ func c16TotalityHarness(tier string, maxLen int) mc.Harness {
 			for _, s := range textAlphabet {
 				try([]byte{s})
 			}
+			// numbers at and around the widths the decoders narrow to, in every arrangement the text forms use
+			nums := []string{"0", "1", "9", "10", "99", "127", "128", "255", "256", "32767", "32768", "65535", "65536", "65537", "131072",
+				"2147483647", "2147483648", "4294967295", "4294967296", "4294967297", "8589934592", "9223372036854775807", "9223372036854775808",
+				"18446744073709551615", "18446744073709551616", "18446744073709551617", "99999999999999999999999"}
+			for _, a := range nums {
+				for _, pre := range []string{"", "+", "-", "f/", "1/", " "} {
+					for _, suf := range []string{"", ".0", ".5", "mm", "/", "/0", "/1", " "} {
+						try([]byte(pre + a + suf))
+					}
+				}
+				for _, b := range nums {
+					for _, sign := range []string{"", "+", "-"} {
+						try([]byte(sign + a + "/" + b))
+						try([]byte(sign + a + "." + b))
+					}
+					try([]byte("\"" + a + "/" + b + "\""))
+				}
+			}
 		} else {
 			buf := make([]byte, maxLen)
 			buf[0] = textAlphabet[first]
@@ -881,7 +899,7 @@ func init() {
 				{Name: "text", H: c16TextHarness(tier), NoLevels: true,
 					Rule: "per type: text/JSON round trip of every documented member, idempotence for every value, all 2^16 ExposureBias encodings, k/100 grid for floats"},
 				{Name: "text-totality", H: c16TotalityHarness(tier, maxLen), NoLevels: true,
-					Rule: fmt.Sprintf("every text decoder on every string of length <= %d over the 16-symbol alphabet %q", maxLen, textAlphabet)},
+					Rule: fmt.Sprintf("every text decoder on every string of length <= %d over the 16-symbol alphabet %q, and on 27 numbers at and around 2^7..2^64 alone, signed, with unit / fraction suffixes and as every pair a/b and a.b", maxLen, textAlphabet)},
 				{Name: "uuid-hash-json", H: c16MiscHarness(), NoLevels: true,
 					Rule: "UUID: 4 text forms x braces/urn x case for pattern and bit-walk values, corruption totality; hash Encode/Decode for bit walks and source lengths 0..40; encoding/json of a struct holding every type"},
 				{Name: "float32-sweep", H: c16FloatSweep(stride), NoLevels: true,
